@@ -5,6 +5,7 @@ import Driver.Json
 import Driver.Promela
 import Driver.Lua
 import Driver.DelayQ
+import Driver.Vhdl
 open Driver
 
 partial def loop (h : IO.FS.Stream) (out : IO.FS.Stream) (f : String → String) : IO Unit := do
@@ -19,6 +20,8 @@ def commands : List (String × (String → String)) := [
   ("trace", trace),
   ("api", api),
   ("dq", dq),
+  ("vhdl", vhdl),
+  ("tstep", tstep),
   ("legal", legal),
   ("nest", nest),
   ("tables", tables),
